@@ -873,9 +873,96 @@ register(
     [A_API, "the transform's forward returns (noise, log|det J|) (C01/C02 rules)", "the value of the Gaussian normaliser is not checked"],
 )
 
+def slp_latent_rule(ctx):
+    """SLP-LATENT.  The value sample_and_log_prob reports for a sample is log_prob *of that sample*: a function of
+    the sample (and the context) alone.  A sampler of a mixture / hierarchical model draws a latent first (the
+    component index) and the value given the latent; the density of the value marginalises the latent out
+    (logsumexp over components), whereas `log pi[z] + log N(x; mu[z], sigma[z])` is the joint density of (x, z)
+    -- strictly smaller.  Decided on the def-use slice of the returned log-probability inside every
+    sample_and_log_prob / _sample_and_log_prob of the library: followed backwards through assignments,
+    augmented assignments and subscript stores, stopping at the returned samples (and at names stored into
+    them), it must not reach a discrete random draw (torch.multinomial / randint / bernoulli, Categorical(..).sample)."""
+    from .shared_rules import _functions, _own_nodes
+
+    p = ctx.p
+    res = RuleResult("SLP-LATENT", "the log-probability returned by a sample_and_log_prob depends on the discrete latent draws of the sampler (component indices) only through the returned samples: the latent is marginalised, not scored")
+    DRAWS = ("multinomial", "randint", "bernoulli", "randperm")
+    n = 0
+    for mod, qual, fn, cls in _functions(p):
+        if fn.name not in ("sample_and_log_prob", "_sample_and_log_prob"):
+            continue
+        n += 1
+        nodes = _own_nodes(fn)
+        rets = [r.value for r in nodes if isinstance(r, ast.Return) and isinstance(r.value, ast.Tuple) and len(r.value.elts) == 2]
+        if not rets:
+            res.ok("%s: does not return a written-out (samples, log_prob) pair (delegates)" % qual, nontrivial=False)
+            continue
+        stop = {x.id for r in rets for x in ast.walk(r.elts[0]) if isinstance(x, ast.Name)}
+        # names whose value is what gets stored into the samples
+        for a in nodes:
+            if isinstance(a, ast.Assign):
+                for t in a.targets:
+                    base = t
+                    while isinstance(base, ast.Subscript):
+                        base = base.value
+                    if isinstance(t, ast.Subscript) and isinstance(base, ast.Name) and base.id in stop:
+                        v = a.value
+                        while isinstance(v, ast.Call) and isinstance(v.func, ast.Attribute) and v.func.attr in ("detach", "clone", "contiguous", "float", "to") :
+                            v = v.func.value
+                        if isinstance(v, ast.Name):
+                            stop.add(v.id)
+        DISCRETE = ("Categorical", "OneHotCategorical", "Bernoulli", "Multinomial", "Binomial", "Poisson", "Geometric")
+        dist_names = {t.id for a in nodes if isinstance(a, ast.Assign) and isinstance(a.value, ast.Call) and norm_text(a.value.func).split(".")[-1] in DISCRETE for t in a.targets if isinstance(t, ast.Name)}
+        todo = [x.id for r in rets for x in ast.walk(r.elts[1]) if isinstance(x, ast.Name)]
+        seen, hit = set(), None
+        while todo and hit is None:
+            nm = todo.pop()
+            if nm in seen or nm in stop:
+                continue
+            seen.add(nm)
+            for a in nodes:
+                vals = []
+                if isinstance(a, ast.Assign):
+                    for t in a.targets:
+                        names_t = [x for x in ast.walk(t) if isinstance(x, ast.Name) and isinstance(x.ctx, ast.Store)]
+                        base = t
+                        while isinstance(base, ast.Subscript):
+                            base = base.value
+                        if any(x.id == nm for x in names_t):
+                            # tuple targets: the matching element of a tuple value, else the whole value
+                            if isinstance(t, ast.Tuple) and isinstance(a.value, ast.Tuple) and len(t.elts) == len(a.value.elts):
+                                vals += [v for tt, v in zip(t.elts, a.value.elts) if isinstance(tt, ast.Name) and tt.id == nm]
+                            else:
+                                vals.append(a.value)
+                        elif isinstance(t, ast.Subscript) and isinstance(base, ast.Name) and base.id == nm:
+                            vals += [a.value, t.slice]
+                elif isinstance(a, ast.AugAssign):
+                    base = a.target
+                    while isinstance(base, ast.Subscript):
+                        base = base.value
+                    if isinstance(base, ast.Name) and base.id == nm:
+                        vals.append(a.value)
+                elif isinstance(a, ast.For) and any(isinstance(x, ast.Name) and x.id == nm for x in ast.walk(a.target)):
+                    vals.append(a.iter)
+                for v in vals:
+                    for c in ast.walk(v):
+                        if isinstance(c, ast.Call) and isinstance(c.func, ast.Attribute) and (c.func.attr in DRAWS or (c.func.attr in ("sample", "sample_n") and ((isinstance(c.func.value, ast.Call) and norm_text(c.func.value.func).split(".")[-1] in DISCRETE) or (isinstance(c.func.value, ast.Name) and c.func.value.id in dist_names)))):
+                            hit = (c, a, nm)
+                        if isinstance(c, ast.Name) and isinstance(c.ctx, ast.Load):
+                            todo.append(c.id)
+        if hit is None:
+            res.ok("%s: the returned log-probability reaches no discrete draw except through the samples" % qual)
+        else:
+            c, a, nm = hit
+            res.fail(Finding("SLP-LATENT", mod, qual, a, "the log-probability %s returns is computed from `%s`, which holds / selects by the discrete draw `%s`: it scores the latent the sampler happened to draw together with the value (log p(x, z) = log pi[z] + log p(x | z)), not the density of the value (log p(x) = logsumexp_z ..), so it is smaller than what log_prob assigns to the same sample" % (qual, nm, norm_text(c)[:60]), construct="latent draw in the log-probability of %s" % qual))
+    if n < getattr(ctx, "slp_latent_floor", 2):
+        raise AnalysisIncomplete("SLP-LATENT: %d sample_and_log_prob implementations found (< 2: Distribution and Flow have one each on the pinned tree)" % n)
+    return res
+
+
 register(
     "C04",
-    [slp_assemble_rule, noise_src_rule, slp_ctx_rule, layout_rule, batch_cat_rule],
+    [slp_assemble_rule, noise_src_rule, slp_ctx_rule, layout_rule, batch_cat_rule, slp_latent_rule],
     "SLP-CTX: the context expression handed to the base distribution and to the transform on every returning path of "
     "Flow._log_prob, _sample and sample_and_log_prob, normalised modulo row replication, must be one single function of the "
     "context argument (today self._embedding_net(context)); a deviating entry point scores or draws under a different conditional. "
@@ -891,9 +978,21 @@ register(
     [A_API, T_OPS, "repeat_rows / merge_leading_dims / split_leading_dim behave as specified (C20 UT-RESHAPE)"],
 )
 
+def shape_memo_rule(ctx):
+    """SHP-MEMO: the number of rows a call returns follows the rows of *this* call's arguments.  A tensor (or a
+    container of them) kept in a plain attribute by one distribution / flow call and handed back by a later one
+    has the earlier call's row count (the ownership analysis' OWN-ATTR findings, under this property's reading)."""
+    from .own_rules import memo_findings
+
+    r = memo_findings(ctx, "SHP-MEMO", "a later call that returns (or computes with) the kept tensor gets the number of rows of the call that made it, not of its own context / inputs")
+    # this property is about distributions and flows; a memo inside a transform is C16's / C19's report
+    r.findings[:] = [f for f in r.findings if "/distributions/" in "/" + f.file or "/flows/" in "/" + f.file or f.file.endswith("nn/nde/made.py")]
+    return r
+
+
 register(
     "C18",
-    [arg_check_rule, arg_entry_rule, batch_rule, sample_shape_rule, layout_rule],
+    [arg_check_rule, arg_entry_rule, batch_rule, sample_shape_rule, layout_rule, shape_memo_rule],
     "ARG-CHECK: guard dominance in Distribution.log_prob (ValueError under context is not None and differing row counts, before "
     "_log_prob) and, by partial evaluation with every kind of invalid count, Distribution.sample (TypeError before the sampler is "
     "invoked). ARG-ENTRY: no public method of a Distribution subclass (Flow included) hands a count it has not validated with "
